@@ -33,11 +33,11 @@ CHECKS.update({
 W = "World = real VipnodePool + payPerInterval + PaymentService + store driver + request signing + jsonrpc2 on both ends of simulated connections, scripted agents. "
 CHECKS.update({
  "C01": dict(level="exploration",
-   text=W+"Seeded sequential histories on both drivers; after every operation that returns, the credit sum (Stats().TotalCredit and, independently, the per-account getters) must be unchanged, except after a successful withdrawal where it must drop by exactly the settled credit. Concurrent interleavings are covered by the C10 scenarios.",
+   text=W+"Seeded sequential histories on both drivers; after every operation that returns, the credit sum (Stats().TotalCredit and, independently, the per-account getters) must be unchanged, except after a successful withdrawal where it must drop by exactly the settled credit. Concurrent interleavings are covered by the C10 scenarios; c01_ledger_faults repeats the histories with one injected storage error per run (any store operation of the pool fails once, as on a full disk) and demands the same conservation after the failed operation.",
    note="Connections, agents, chain deposit table and settlement handler are stubs. The sum is read from the inner store at quiescent points.",
    technique=TECH+"pool operation histories with clock jumps; conservation invariant after every step", design="4 C01"),
  "C02": dict(level="exploration",
-   text=W+"Keep-alive histories with elapsed times from 0 to days and prices up to 2^200; each accepted client keep-alive must move exactly floor(elapsed*price/interval) to every tracked active peer and the sum from the client (model mirror of every balance, compared after every operation); hosts, zero elapsed time and empty peer sets move nothing.",
+   text=W+"Keep-alive histories with elapsed times from 0 to days and prices up to 2^200; each accepted client keep-alive must move exactly floor(elapsed*price/interval) to every tracked active peer and the sum from the client (model mirror of every balance, compared after every operation); hosts, zero elapsed time and empty peer sets move nothing. c02_stall stalls the handler between check-in stamp and charge; c02_billing_faults injects one storage error per run: a keep-alive that returns an error other than the low-balance cut-off moves no balance.",
    note="The instant a handler reads the clock is only known to lie inside the operation: the charge may correspond to any instant within 200 microseconds after the stamped check-in (no handler stalls are injected in this scenario).",
    technique=TECH+"keep-alive histories on a simulated clock vs an arithmetic reference ledger", design="4 C02"),
  "C03": dict(level="exploration",
@@ -45,15 +45,15 @@ CHECKS.update({
    note="A keep-alive 'bills' when it charges a non-zero amount; the reported balance is parsed from the error text that crosses the RPC boundary.",
    technique=TECH+"threshold-crossing histories with host faults in the disconnect fan-out", design="4 C03"),
  "C04": dict(level="exploration",
-   text=W+"Inside live sessions an adversary sends, to every signed endpoint, a fresh correctly signed request with exactly one component altered (method, identity, nonce, one parameter leaf, one signature byte, other key, empty/garbage/truncated signature); each must be refused with a verification error, and every unaltered fresh request must pass verification.",
+   text=W+"Inside live sessions an adversary sends, to every signed endpoint, a fresh correctly signed request with exactly one component altered (method, identity, nonce, one parameter leaf, one signature byte, other key, empty/garbage/truncated signature); each must be refused with a verification error, and every unaltered fresh request must pass verification. Identity alterations include the same bytes spelled differently (hex case, 0X prefix).",
    note="Alterations are applied to decoded values; the old-format vipnode_update signature (peers, block_number) that the code accepts for backward compatibility is not exercised with altered peers_info (see DESIGN section 5).",
    technique=TECH+"single-component request alterations injected into live sessions", design="4 C04"),
  "C06": dict(level="exploration",
-   text=W+"Refused requests of every kind (bad signature, wrong key, malformed signature, replayed or too-old nonce) between legitimate operations: the digest of the whole pool state (nodes, peers, links, balances, connected hosts, instructions received by hosts, settlements) and the count of mutating store operations must not change, and the owner's next request with a smaller fresh nonce must be accepted.",
+   text=W+"Refused requests of every kind (bad signature, wrong key, malformed signature, replayed or too-old nonce) between legitimate operations: the digest of the whole pool state (nodes, peers, links, balances, connected hosts, instructions received by hosts, settlements) and the count of mutating store operations must not change, and the owner's next request with a smaller fresh nonce must be accepted. c06_refused_conc sends the owner's own withdrawal or keep-alive while one to three requests naming the same identity are still being refused (stale nonce, flipped byte, other key), interleaved at every store boundary: the owner's request must be carried out as if they had never been sent.",
    note="Digest read from the inner store at quiescent points; time-derived statistics excluded.",
    technique=TECH+"refused requests injected at arbitrary points of valid sessions; state-digest equality + follow-up nonce", design="4 C06"),
  "C07": dict(level="exploration",
-   text=W+"Credit accrues through real billing, deposits come from the simulated chain; valid, repeated and below-minimum withdrawals, fee none/constant, settlement failing at chosen attempts: paid amount = balance - fee exactly once, nothing left to withdraw afterwards (so nothing is paid twice), nothing paid or changed on refusal or failure. Racing withdrawals are covered by c07_withdraw_race.",
+   text=W+"Credit accrues through real billing, deposits come from the simulated chain; valid, repeated and below-minimum withdrawals, fee none/constant, settlement failing at chosen attempts: paid amount = balance - fee exactly once, nothing left to withdraw afterwards (so nothing is paid twice), nothing paid or changed on refusal or failure. Racing withdrawals are covered by c07_withdraw_race; c07_withdraw_faults injects one storage error (nonce save, balance read, credit debit) into a withdrawal: a withdrawal that returns an error has paid nothing and changed no balance.",
    note="Settlement is the SimSettle stub (sets the on-chain deposit to newBalance on success).",
    technique=TECH+"accrual/withdrawal histories with settlement faults; races at store and settlement yield points", design="4 C07"),
  "C08": dict(level="exploration",
@@ -69,7 +69,7 @@ CHECKS.update({
    note="Low simulation weight: the schedule is inert, the simulator contributes the transport-supplied source address and the three-party round trip.",
    technique=TECH+"registration inputs x connection source addresses through the real connect path, round-trip parse oracle", design="4 C19"),
  "C10": dict(level="exploration",
-   text=W+"Bursts of 2-8 overlapping update / peer / addNode calls and duplicate copies of one signed request from agents sharing hosts and a wallet (including two keep-alives of one client), interleaved at every store-operation boundary and at the in-transaction yield points of the badger driver (real optimistic conflicts). At quiescence: every balance holder's credit moved by what some one-at-a-time order of the acknowledged requests moves it (interval arithmetic over the charge), the credit sum is conserved, a nonce is honoured at most once, every Balance/Node handed out by a store (and every balance in a reply) is unchanged by later operations. A tenth of the runs is repeated in a -race build in which the scheduler's own hand-offs are hidden from ThreadSanitizer, so accesses the code itself leaves unordered are reported even though they were run one after the other.",
+   text=W+"Bursts of 2-8 overlapping update / peer / addNode calls and duplicate copies of one signed request from agents sharing hosts and a wallet (including two keep-alives of one client), interleaved at every store-operation boundary and at the in-transaction yield points of the badger driver (real optimistic conflicts). At quiescence: every balance holder's credit moved by what some one-at-a-time order of the acknowledged requests moves it (interval arithmetic over the charge), the credit sum is conserved, a nonce is honoured at most once, every Balance/Node handed out by a store (and every balance in a reply) is unchanged by later operations. A tenth of the runs is repeated in a -race build in which the scheduler's own hand-offs are hidden from ThreadSanitizer, so accesses the code itself leaves unordered are reported even though they were run one after the other. Two focused variants: c10_same_client (2-4 keep-alives of one client in flight at once) and c10_first_touch (persistent driver, nodes without a balance record whose first credit races their own keep-alive or re-registration, i.e. retried transactions). Schedules: uniform, priority (PCT-style, change-point rate varied per run) and injected stalls (one goroutine frozen where it stands for 5-60 decisions).",
    note="Serialisability is checked on resulting balances and nonce decisions by interval arithmetic rather than by a general linearizability search; peer sets are kept fresh so that no eviction depends on the order. Inside one store call of the memory driver no interleaving is possible under the cooperative scheduler: removed locking there is the race build's job. Socket transport concurrency (gorilla) is covered by C17's race scenario, not here.",
    technique=TECH+"concurrent request bursts interleaved at store-op and in-transaction yield points; serial-order interval oracle, snapshot-immutability registry, race detector with masked hand-offs", design="4 C10"),
  "C18": dict(level="exploration",
